@@ -3,6 +3,7 @@
 package pfcp
 
 import (
+	"net"
 	"github.com/wmnsk/go-pfcp/ie"
 	"github.com/wmnsk/go-pfcp/message"
 )
@@ -18,6 +19,15 @@ type zzGhost struct {
 	live  [zzMaxSess]bool
 	node  [zzMaxSess]int
 	cp    [zzMaxSess]uint64
+	alt   bool // node A currently talks from its other source address (zzAddrA2)
+}
+
+// addr: the source address node n currently uses.
+func (w *zzWorld) addr(n int) net.Addr {
+	if n == 0 && w.g.alt {
+		return zzAddrA2
+	}
+	return zzAddr(n)
 }
 
 type zzWorld struct {
@@ -178,7 +188,12 @@ func (w *zzWorld) stepAssoc() {
 	n := nondetChoice("assoc-node", 2)
 	from := len(w.dp.calls)
 	seq := w.nextSeq()
-	zzDeliver(w.s, zzAssocReq(seq, zzNodeID(n)), zzAddr(n), seq)
+	if n == 0 {
+		// the peer may come back from another source address (restart on another port): same node id,
+		// so by the property its old sessions and their rules go all the same
+		w.g.alt = nondetBool("assoc-from-other-address")
+	}
+	zzDeliver(w.s, zzAssocReq(seq, zzNodeID(n)), w.addr(n), seq)
 	w.newResponses()
 	// sessions of node n end
 	ended := [zzMaxSess]bool{}
@@ -223,7 +238,7 @@ func (w *zzWorld) stepEstablish() {
 	}
 	from := len(w.dp.calls)
 	seq := w.nextSeq()
-	zzDeliver(w.s, zzEstReq(seq, ies...), zzAddr(n), seq)
+	zzDeliver(w.s, zzEstReq(seq, ies...), w.addr(n), seq)
 	rsps := w.newResponses()
 	if !w.g.assoc[n] {
 		// unknown node: no answer, no trace
@@ -335,7 +350,7 @@ func (w *zzWorld) stepReportRsp() {
 	}
 	rsp := message.NewSessionReportResponse(0, 0, hdr, 0, 0, ie.NewCause(ie.CauseRequestAccepted))
 	from := len(w.dp.calls)
-	w.s.handleSessionReportResponse(rsp, zzAddr(n), req)
+	w.s.handleSessionReportResponse(rsp, w.addr(n), req)
 	w.newResponses()
 	if !zero {
 		zzAssert("C01.reportrsp-nonzero.no-dp-call", len(w.dp.calls) == from)
